@@ -8,6 +8,9 @@ open Monero
 * `c15_fmt <u|s> <Denom> <int>`               → hex of `to_string_in`
 * `c15_fmt_denom <u|s> <Denom> <int>`         → hex of `to_string_with_denomination`
 * `c15_display <u|s> <int>`                   → hex of `format!("{}", a)` (`Display`; model `AmtText.display`, spec: 12 decimals + ` xmr`)
+* `c15_display_flags <u|s> <flag> <int>`      → hex of `format!` with a format spec carrying flags (precision, width, alignment, fill, sign,
+                                               zero padding, `#`; also `to_string()` and `write!`); the library consults no flag, so model and
+                                               spec are those of `c15_display` whatever `<flag>` is
 * `c15_denom <hex utf8>`                      → `<Denom>` | `err`    (`Denomination::from_str`; model: generated table, spec: `denomOfName`)
 * `c15_fmt_after_fail <u|s> <Denom> <c|b><k> <int1> <int2>` → the three formatted forms of `int2` after `int1` was formatted into a failing sink
 * `c15_parse_after_fail <u|s> <Denom> <hex bad> <hex good>` → `from_str_in` of `good` after `bad` was parsed (result ignored)
@@ -48,6 +51,10 @@ def stepC15 : Step := fun toks =>
     let b := Hex.decode good
     pure (showExI (AmtText.fromStrIn signed b d), showOptI (Spec.Decimal.specParse signed (Spec.Decimal.decimals d) b))
   | ["c15_display", ty, a] => do
+    let signed ← signedOfStr ty; let a ← a.toInt?
+    pure (Hex.encode (AmtText.display signed a), Hex.encode (Spec.Decimal.specFormatWithDenomination .Monero a))
+  | ["c15_display_flags", ty, _flag, a] => do
+    -- the two `Display` impls write through the formatter without consulting its flags: the flag is not an argument of the model
     let signed ← signedOfStr ty; let a ← a.toInt?
     pure (Hex.encode (AmtText.display signed a), Hex.encode (Spec.Decimal.specFormatWithDenomination .Monero a))
   | ["c15_denom", h] =>
